@@ -35,6 +35,7 @@ import (
 	"time"
 
 	"tunnox-core/internal/app/server"
+	"tunnox-core/internal/broker"
 	"tunnox-core/internal/cloud/factories"
 	"tunnox-core/internal/cloud/managers"
 	"tunnox-core/internal/cloud/models"
@@ -99,6 +100,7 @@ func (f *fakeStream) snapshot() []sentPkt {
 type connSpec struct {
 	kind byte // N U A
 	cid  int64
+	node int // server node the connection is attached to
 }
 type mapSpec struct {
 	listen, target int64
@@ -117,6 +119,7 @@ type kase struct {
 	bad      bool
 	m, k, d  int
 	g        int64
+	bridge   bool
 	conns    []connSpec
 	maps     []mapSpec
 	codes    []codeSpec
@@ -137,6 +140,10 @@ func parseCase(s string) (*kase, error) {
 	k := &kase{ctype: atoi(t[1]), resp: t[3] == "1", from: atoi(t[5]), snd: t[7], rcv: t[9], tok: t[11],
 		bad: t[13] == "1", m: atoi(t[15]), g: atoi64(t[17]), k: atoi(t[19]), d: atoi(t[21])}
 	i := 23
+	if i+1 < len(t) && t[i] == "br" {
+		k.bridge = t[i+1] == "1"
+		i += 2
+	}
 	next := func(tag string) (int, error) {
 		if i+1 >= len(t) || t[i] != tag {
 			return 0, fmt.Errorf("expected %s", tag)
@@ -153,7 +160,15 @@ func parseCase(s string) (*kase, error) {
 		return nil, err
 	}
 	for j := 0; j < n; j++ {
-		k.conns = append(k.conns, connSpec{kind: t[i][0], cid: atoi64(t[i][1:])})
+		idAndNode := strings.SplitN(t[i][1:], "@", 2)
+		cs := connSpec{kind: t[i][0], cid: atoi64(idAndNode[0])}
+		if len(idAndNode) == 2 {
+			cs.node = atoi(idAndNode[1])
+			if cs.node < 0 || cs.node > 3 {
+				return nil, fmt.Errorf("bad node")
+			}
+		}
+		k.conns = append(k.conns, cs)
 		i++
 	}
 	if n, err = next("maps"); err != nil {
@@ -195,7 +210,10 @@ func parseCase(s string) (*kase, error) {
 
 type world struct {
 	cancel  context.CancelFunc
-	sm      *session.SessionManager
+	sms     []*session.SessionManager // one per node
+	hub     *hub
+	cloud   *managers.BuiltinCloudControl
+	kase    *kase
 	pmRepo  *repos.PortMappingRepo
 	ccRepo  *repos.ConnectionCodeRepository
 	domRepo *repos.HTTPDomainMappingRepository
@@ -223,51 +241,174 @@ func (m *doneMW) Process(ctx *types.CommandContext, next func(*types.CommandCont
 
 func connID(i int) string { return fmt.Sprintf("conn-%d", i) }
 
+func (w *world) smOf(conn int) *session.SessionManager { return w.sms[w.kase.conns[conn].node] }
+
+// ---------------------------------------------------------------- two nodes: a BridgeManager over an in-memory broker
+
+// hub is the message broker shared by all nodes. Subscriber channels are unbuffered, so a completed send means the
+// node's processing loop has taken the message; a second (unparsable) message sent afterwards completes only when
+// the loop is back at its receive, i.e. when the first message has been handled.
+type hub struct {
+	mu     sync.Mutex
+	subs   map[string][]chan *session.BroadcastMessage
+	opened []session.TunnelOpenBroadcastMessage // every tunnel-open broadcast published
+}
+
+func (h *hub) publish(topic string, payload []byte) {
+	h.mu.Lock()
+	subs := append([]chan *session.BroadcastMessage(nil), h.subs[topic]...)
+	h.mu.Unlock()
+	for _, ch := range subs {
+		for _, pl := range [][]byte{payload, []byte("not-json (verif: sync marker)")} {
+			select {
+			case ch <- &session.BroadcastMessage{Topic: topic, Payload: pl}:
+			case <-time.After(2 * time.Second):
+			}
+		}
+	}
+}
+
+type bridge struct {
+	hub    *hub
+	nodeID string
+}
+
+func (b *bridge) BroadcastTunnelOpen(req *packet.TunnelOpenRequest, targetClientID int64) error {
+	msg := session.TunnelOpenBroadcastMessage{Type: "tunnel_open", TunnelID: req.TunnelID, MappingID: req.MappingID,
+		TargetClientID: targetClientID, SourceNodeID: b.nodeID, Timestamp: time.Now().Unix(),
+		TargetHost: req.TargetHost, TargetPort: req.TargetPort, TargetNetwork: req.TargetNetwork}
+	payload, err := json.Marshal(&msg)
+	if err != nil {
+		return err
+	}
+	b.hub.mu.Lock()
+	b.hub.opened = append(b.hub.opened, msg)
+	b.hub.mu.Unlock()
+	b.hub.publish(broker.TopicTunnelOpen, payload)
+	return nil
+}
+func (b *bridge) Subscribe(_ context.Context, topic string) (<-chan *session.BroadcastMessage, error) {
+	ch := make(chan *session.BroadcastMessage)
+	b.hub.mu.Lock()
+	b.hub.subs[topic] = append(b.hub.subs[topic], ch)
+	b.hub.mu.Unlock()
+	return ch, nil
+}
+func (b *bridge) PublishMessage(_ context.Context, topic string, payload []byte) error {
+	b.hub.publish(topic, payload)
+	return nil
+}
+func (b *bridge) GetNodeID() string                                       { return b.nodeID }
+func (b *bridge) NotifyTunnelReady(context.Context, string, string) error { return nil }
+func (b *bridge) WaitForTunnelReady(ctx context.Context, _ string) (string, error) {
+	<-ctx.Done()
+	return "", ctx.Err()
+}
+
+// settle waits until every push a published broadcast leads to has reached its stream: a node that has a control
+// connection for the broadcast's client id (and can read the mapping) sends asynchronously (two goroutines deep).
+// Only the implementation's own state is consulted. A short grace period follows so that a push to anybody else
+// would be seen as well.
+func (w *world) settle() string {
+	w.hub.mu.Lock()
+	opened := append([]session.TunnelOpenBroadcastMessage(nil), w.hub.opened...)
+	w.hub.mu.Unlock()
+	if len(opened) == 0 {
+		return ""
+	}
+	for _, msg := range opened {
+		if _, err := w.cloud.GetPortMapping(msg.MappingID); err != nil {
+			continue
+		}
+		for _, sm := range w.sms {
+			cc := sm.GetControlConnectionByClientID(msg.TargetClientID)
+			if cc == nil {
+				continue
+			}
+			fs, ok := cc.Stream.(*fakeStream)
+			if !ok {
+				continue
+			}
+			deadline := time.Now().Add(5 * time.Second)
+			for {
+				got := false
+				for _, p := range fs.snapshot() {
+					if p.ctype == packet.TunnelOpenRequestCmd {
+						got = true
+					}
+				}
+				if got {
+					break
+				}
+				if time.Now().After(deadline) {
+					return "timeout-broadcast-delivery"
+				}
+				time.Sleep(50 * time.Microsecond)
+			}
+		}
+	}
+	time.Sleep(2 * time.Millisecond)
+	return ""
+}
+
 func buildWorld(k *kase) (*world, error) {
 	ctx, cancel := context.WithCancel(context.Background())
-	w := &world{cancel: cancel, done: make(chan struct{}, 4)}
+	w := &world{cancel: cancel, done: make(chan struct{}, 4), kase: k, hub: &hub{subs: map[string][]chan *session.BroadcastMessage{}}}
+	// storage, cloud control and services are shared by all nodes (one deployment)
 	stor := storage.NewMemoryStorage(ctx)
 	repo := repos.NewRepository(stor)
 	cc := factories.NewBuiltinCloudControlWithRepo(ctx, managers.DefaultConfig(), stor, repo)
+	w.cloud = cc
 	idm := idgen.NewIDManager(stor, ctx)
-	sm := session.NewSessionManager(idm, ctx)
-	w.sm = sm
-	sm.SetCloudControl(session.NewCloudControlAdapter(cc))
-	sm.SetNodeID("verif-node")
 	w.pmRepo = repos.NewPortMappingRepo(repo)
 	w.ccRepo = repos.NewConnectionCodeRepository(repo)
 	w.domRepo = repos.NewHTTPDomainMappingRepository(repo, []string{"tunnox.net"})
 	pms := cc.GetPortMappingService()
 	ccs := services.NewConnectionCodeService(w.ccRepo, pms, w.pmRepo, nil, ctx)
-	auth := server.NewServerAuthHandler(cc, sm, nil, nil, nil, nil)
-	sm.SetAuthHandler(auth)
+	nNodes := 1
+	for _, c := range k.conns {
+		if c.node+1 > nNodes {
+			nNodes = c.node + 1
+		}
+	}
+	for n := 0; n < nNodes; n++ {
+		sm := session.NewSessionManager(idm, ctx)
+		w.sms = append(w.sms, sm)
+		sm.SetCloudControl(session.NewCloudControlAdapter(cc))
+		sm.SetNodeID(fmt.Sprintf("verif-node-%d", n))
+		if k.bridge {
+			sm.SetBridgeManager(&bridge{hub: w.hub, nodeID: fmt.Sprintf("verif-node-%d", n)})
+		}
+		auth := server.NewServerAuthHandler(cc, sm, nil, nil, nil, nil)
+		sm.SetAuthHandler(auth)
 
-	// the command table: every handler constructor of the anchored packages
-	registry := command.NewCommandRegistry(ctx)
-	command.RegisterDefaultHandlers(registry)
-	if err := server.NewConnectionCodeCommandHandlers(ccs, sm).RegisterHandlers(registry); err != nil {
-		return nil, err
-	}
-	if err := server.NewConfigCommandHandlers(auth, sm).RegisterHandlers(registry); err != nil {
-		return nil, err
-	}
-	if err := server.NewMappingCommandHandlers(ccs, sm).RegisterHandlers(registry); err != nil {
-		return nil, err
-	}
-	if err := server.NewHTTPDomainCommandHandlers(sm, w.domRepo).RegisterHandlers(registry); err != nil {
-		return nil, err
-	}
-	if err := registry.Register(command.NewNotifyClientAckHandler()); err != nil {
-		return nil, err
-	}
-	if err := registry.Register(command.NewSendNotifyToClientHandler(sm.VerifNotificationService())); err != nil {
-		return nil, err
-	}
-	ex := command.NewCommandExecutor(registry, ctx)
-	ex.SetSession(sm)
-	ex.AddMiddleware(&doneMW{ch: w.done})
-	if err := sm.SetCommandExecutor(ex); err != nil {
-		return nil, err
+		// the command table: every handler constructor of the anchored packages
+		registry := command.NewCommandRegistry(ctx)
+		command.RegisterDefaultHandlers(registry)
+		if err := server.NewConnectionCodeCommandHandlers(ccs, sm).RegisterHandlers(registry); err != nil {
+			return nil, err
+		}
+		if err := server.NewConfigCommandHandlers(auth, sm).RegisterHandlers(registry); err != nil {
+			return nil, err
+		}
+		if err := server.NewMappingCommandHandlers(ccs, sm).RegisterHandlers(registry); err != nil {
+			return nil, err
+		}
+		if err := server.NewHTTPDomainCommandHandlers(sm, w.domRepo).RegisterHandlers(registry); err != nil {
+			return nil, err
+		}
+		if err := registry.Register(command.NewNotifyClientAckHandler()); err != nil {
+			return nil, err
+		}
+		if err := registry.Register(command.NewSendNotifyToClientHandler(sm.VerifNotificationService())); err != nil {
+			return nil, err
+		}
+		ex := command.NewCommandExecutor(registry, ctx)
+		ex.SetSession(sm)
+		ex.AddMiddleware(&doneMW{ch: w.done})
+		if err := sm.SetCommandExecutor(ex); err != nil {
+			return nil, err
+		}
 	}
 
 	// objects
@@ -320,7 +461,7 @@ func buildWorld(k *kase) (*world, error) {
 	for i, c := range k.conns {
 		fs := &fakeStream{}
 		w.streams = append(w.streams, fs)
-		if err := sm.VerifAddConnection(connID(i), fs, c.kind != 'N', c.cid); err != nil {
+		if err := w.sms[c.node].VerifAddConnection(connID(i), fs, c.kind != 'N', c.cid); err != nil {
 			return nil, err
 		}
 	}
@@ -341,7 +482,7 @@ func buildWorld(k *kase) (*world, error) {
 			}
 			id := p.CommandPacket.CommandId
 			go func() {
-				_ = sm.HandlePacket(&types.StreamPacket{ConnectionID: connID(i), Packet: &packet.TransferPacket{
+				_ = w.smOf(i).HandlePacket(&types.StreamPacket{ConnectionID: connID(i), Packet: &packet.TransferPacket{
 					PacketType: packet.CommandResp, CommandPacket: &packet.CommandPacket{CommandType: ct, CommandId: id, CommandBody: body}}})
 			}()
 		}
@@ -560,6 +701,11 @@ func runOnce(k *kase, claimed bool) string {
 				res <- "panic " + strings.ReplaceAll(fmt.Sprint(r), " ", "_")
 			}
 		}()
+		if !claimed && !addressedType(k) {
+			kk := *k
+			kk.g = 0
+			k = &kk
+		}
 		w, err := buildWorld(k)
 		if err != nil {
 			res <- "setup-error " + strings.ReplaceAll(err.Error(), " ", "_")
@@ -584,14 +730,14 @@ func runOnce(k *kase, claimed bool) string {
 		if k.resp {
 			pt = packet.CommandResp
 		}
-		err = w.sm.HandlePacket(&types.StreamPacket{ConnectionID: connID(k.from), Timestamp: time.Now(),
+		err = w.smOf(k.from).HandlePacket(&types.StreamPacket{ConnectionID: connID(k.from), Timestamp: time.Now(),
 			Packet: &packet.TransferPacket{PacketType: pt, CommandPacket: cmd}})
 		ret := "1"
 		if err != nil {
 			ret = "0"
 		}
 		// one-way registry handlers run in a goroutine: wait until the handler has returned
-		if h, ok := w.sm.GetCommandExecutor().GetRegistry().GetHandler(packet.CommandType(k.ctype)); ok && err == nil &&
+		if h, ok := w.smOf(k.from).GetCommandExecutor().GetRegistry().GetHandler(packet.CommandType(k.ctype)); ok && err == nil &&
 			h.GetDirection() == types.DirectionOneway && !specialCased(k) {
 			select {
 			case <-w.done:
@@ -599,6 +745,10 @@ func runOnce(k *kase, claimed bool) string {
 				res <- "timeout-oneway"
 				return
 			}
+		}
+		if msg := w.settle(); msg != "" {
+			res <- msg
+			return
 		}
 		after := w.snapshot(ids)
 
@@ -666,7 +816,7 @@ func runOnce(k *kase, claimed bool) string {
 					dlv = append(dlv, fmt.Sprintf("%d:%d:%s", i, p.ctype, sender))
 				}
 			}
-			inMap, ctl := w.sm.VerifHasConn(connID(i))
+			inMap, ctl := w.smOf(i).VerifHasConn(connID(i))
 			fs.mu.Lock()
 			closed := fs.closed
 			fs.mu.Unlock()
@@ -719,10 +869,23 @@ func execCase(out *vc.Out, caseStr string) {
 		out.Case(key+"x "+caseStr[2:], a+" ~ "+b, caseStr)
 		return
 	}
-	if k.snd != "0" || k.rcv != "0" || k.tok != "-" {
+	if k.snd != "0" || k.rcv != "0" || k.tok != "-" || (k.g != 0 && !addressedType(k)) {
 		b = runOnce(k, false)
 	}
 	out.Case(key+caseStr, a+" ~ "+b, caseStr)
+}
+
+// addressedType: the commands whose body target_client_id is the addressee by protocol design (DNS forward,
+// client-to-client notification). For every other command type — known or not — a client id in the body is a
+// claimed field: the second run blanks it together with SenderId/ReceiverId/Token.
+func addressedType(k *kase) bool {
+	switch packet.CommandType(k.ctype) {
+	case packet.DNSResolve, packet.DNSQuery:
+		return !k.resp
+	case packet.SendNotifyToClient:
+		return true
+	}
+	return false
 }
 
 func ambiguousDefaultTarget(k *kase) bool {
@@ -871,6 +1034,36 @@ func gen(out *vc.Out, r *vc.Rand, thorough bool) {
 			}
 		}
 	}
+	// 1c. two nodes: sender identity x claimed body target x where the mapping's real target is connected
+	//     (same node / other node / nowhere) x bridge manager configured or not
+	for _, ct := range []int{90, 120, 121, 102, 110, 76, 72, 75} {
+		for _, place := range []string{"same", "other", "nowhere"} {
+			for _, br := range []int{1, 0} {
+				cs := []string{"A1001", "A1003", "U0", "N0", "A1004", "A2002@1", "A1003@1"}
+				switch place {
+				case "same":
+					cs = append(cs, "A1002")
+				case "other":
+					cs = append(cs, "A1002@1")
+				}
+				w := strings.Replace(worldStr(cs, []string{"1001:1002:s:a", "1003:2002:s:a"}, []string{"1002:0"}, nil), "W ", fmt.Sprintf("W br %d ", br), 1)
+				froms := []int{0, 1, 2, 3, 6}
+				if place != "nowhere" {
+					froms = append(froms, 7)
+				}
+				for _, from := range froms {
+					for _, g := range []int64{B, 2002, 1004, A, 0, -1} {
+						execCase(out, caseStr(ct, false, from, 0, 0, "-", false, 0, g, 0, 0, w))
+						if thorough {
+							execCase(out, caseStr(ct, false, from, B, 2002, "2002", false, 0, g, 0, 0, w))
+							execCase(out, caseStr(ct, false, from, 0, 0, "-", false, 1, g, 0, 0, w))
+						}
+						out.Count("two-node:" + place)
+					}
+				}
+			}
+		}
+	}
 	// 2. random worlds: random casts, ownership, online sets
 	rounds := 400
 	if thorough {
@@ -891,6 +1084,14 @@ func gen(out *vc.Out, r *vc.Rand, thorough bool) {
 				cs = append(cs, fmt.Sprintf("A%d", vc.Pick(r, ids)))
 			}
 		}
+		twoNodes := r.Intn(3) == 0
+		if twoNodes {
+			for j := range cs {
+				if r.Intn(2) == 0 {
+					cs[j] += "@1"
+				}
+			}
+		}
 		var ms, cds, ds []string
 		for j := r.Intn(4); j > 0; j-- {
 			ms = append(ms, fmt.Sprintf("%d:%d:%s:%s", vc.Pick(r, ids), vc.Pick(r, ids), vc.Pick(r, []string{"s", "t"}), vc.Pick(r, []string{"a", "a", "i"})))
@@ -902,6 +1103,9 @@ func gen(out *vc.Out, r *vc.Rand, thorough bool) {
 			ds = append(ds, fmt.Sprintf("%d", vc.Pick(r, ids)))
 		}
 		w := worldStr(cs, ms, cds, ds)
+		if twoNodes || r.Intn(6) == 0 {
+			w = strings.Replace(w, "W ", fmt.Sprintf("W br %d ", vc.Pick(r, []int{1, 1, 1, 0})), 1)
+		}
 		ct := vc.Pick(r, interesting)
 		if r.Intn(8) == 0 {
 			ct = r.Intn(131)
